@@ -653,7 +653,7 @@ def _stress(ctx, part, info):
         cls = ("concurrent-writes-on-a-sink's-writer" if "concurrent Write" in x else
                "protected-plaintext-in-a-sink-behind-encrypt" if "protected field" in x or "redaction marker" in x else
                "plain-sink-does-not-show-its-pipeline's-view" if "does not show the plaintext" in x else
-               "file-sinks-on-one-file-lose-or-duplicate-events" if "acknowledged events" in x else
+               "file-sink-loses-or-duplicates-acknowledged-events" if "acknowledged events" in x else
                "sink-output-not-a-sequence-of-JSON-documents")
         if cls in seen_classes:
             continue
